@@ -65,8 +65,14 @@ pub struct Blob {
 }
 
 impl Blob {
+    /// mostly pseudo-random content; one seed in eight gives an all-zero, one an all-0xff field
+    /// (e.g. 20 zero bytes = the EVM zero address, 32 zero bytes = an empty word)
     fn bytes(&self) -> Vec<u8> {
-        seeded_bytes(self.seed, self.len as usize)
+        match self.seed % 8 {
+            0 => vec![0u8; self.len as usize],
+            1 => vec![0xffu8; self.len as usize],
+            _ => seeded_bytes(self.seed, self.len as usize),
+        }
     }
 }
 
@@ -164,7 +170,7 @@ fn text() -> impl Strategy<Value = Text> {
 }
 
 fn blob() -> impl Strategy<Value = Blob> {
-    (prop_oneof![3 => prop::sample::select(vec![0u16, 1, 31, 32, 33, 63, 64, 65]), 3 => 0u16..100, 1 => 100u16..300], any::<u64>())
+    (prop_oneof![3 => prop::sample::select(vec![0u16, 1, 20, 31, 32, 33, 63, 64, 65]), 3 => 0u16..100, 1 => 100u16..300], any::<u64>())
         .prop_map(|(len, seed)| Blob { len, seed })
 }
 
@@ -364,7 +370,7 @@ impl Property for C10 {
         "C10"
     }
     fn rule(&self) -> &'static str {
-        "proptest: (a) structured hub messages (both wrappers x both inner kinds; ids; addresses/data of length 0,1,31,32,33,..300; names/symbols/chains from arbitrary Unicode strings, printable ASCII, 31-33 byte strings, and invalid UTF-8; amounts {0,1,2^64,2^127-1,random}; decimals 0..255; optional bytes absent / empty / present): abi_encode must equal the harness's own head/tail ABI encoder byte for byte and decode back to the same message; (b) byte strings: uniformly random (optionally with a valid type tag in word 0) and valid encodings with one or two mutations (bit flip, word replaced by special values incl. 2^127, 2^128, 2^32, 2^63, 2^64-32.., offset/length +-k, truncation, trailing bytes, dirty padding / high bytes): no panic, abi_decode succeeds iff the harness's strict canonical decoder accepts, same message, re-encoding reproduces the input. thorough additionally runs a libFuzzer campaign with the same oracle in-target. non-trivial = structured messages, and byte strings of >= 32 bytes whose first word is a valid type tag (they reach the struct decoder); distinct by Debug hash"
+        "proptest: (a) structured hub messages (both wrappers x both inner kinds; ids; addresses/data of length 0,1,20,31,32,33,..300 with pseudo-random, all-zero or all-0xff content; names/symbols/chains from arbitrary Unicode strings, printable ASCII, 31-33 byte strings, and invalid UTF-8; amounts {0,1,2^64,2^127-1,random}; decimals 0..255; optional bytes absent / empty / present): abi_encode must equal the harness's own head/tail ABI encoder byte for byte and decode back to the same message; (b) byte strings: uniformly random (optionally with a valid type tag in word 0) and valid encodings with one or two mutations (bit flip, word replaced by special values incl. 2^127, 2^128, 2^32, 2^63, 2^64-32.., offset/length +-k, truncation, trailing bytes, dirty padding / high bytes): no panic, abi_decode succeeds iff the harness's strict canonical decoder accepts, same message, re-encoding reproduces the input. thorough additionally runs a libFuzzer campaign with the same oracle in-target. non-trivial = structured messages, and byte strings of >= 32 bytes whose first word is a valid type tag (they reach the struct decoder); distinct by Debug hash"
     }
     fn assumptions(&self) -> Vec<&'static str> {
         vec!["native 64-bit usize (the dependency's overflow behaviour differs on wasm32)"]
@@ -486,6 +492,8 @@ pub fn seed_inputs() -> Vec<Vec<u8>> {
         Inner::Deploy { token: 4, name: Text::Utf8("Token".into()), symbol: Text::Utf8("TKN".into()), decimals: 18, minter: None },
         Inner::Deploy { token: 5, name: Text::Utf8("Ünï©ode 漢字".into()), symbol: Text::Utf8("€".into()), decimals: 255, minter: Some(b(32, 9)) },
         Inner::Deploy { token: 6, name: Text::Utf8("".into()), symbol: Text::Utf8("".into()), decimals: 0, minter: Some(b(44, 9)) },
+        Inner::Deploy { token: 7, name: Text::Utf8("Z".into()), symbol: Text::Utf8("Z".into()), decimals: 1, minter: Some(b(20, 8)) },
+        Inner::Transfer { token: 8, src: b(20, 16), dst: b(20, 9), amount: Amount::One, data: Some(b(20, 0)) },
     ];
     let mut out = vec![];
     for i in &inners {
